@@ -139,7 +139,135 @@ def extract(repo):
     return schemas, pairs
 
 
-def render(schemas, pairs):
+# ------------------------------------------------------------------ field pins (write expression <-> read target)
+WRITE_MACROS = ["write_tlv_fields", "encode_tlv_stream", "_encode_varint_length_prefixed_tlv"]
+READ_MACROS = ["read_tlv_fields", "_init_and_read_len_prefixed_tlv_fields", "_init_and_read_tlv_stream", "decode_tlv_stream",
+               "decode_tlv_stream_with_custom_tlv_decode"]
+PINS_FILE = os.path.join(os.path.dirname(os.path.abspath(__file__)), "persist_pins.json")
+
+
+def raw_entries(body):
+    """[(type:int, expr:str, kind:str)] of the literal-typed, on-the-wire entries of a TLV block"""
+    out = []
+    for ent in split_top(body):
+        if not ent.startswith("("):
+            continue
+        parts = split_top(ent[1:-1])
+        if len(parts) < 3:
+            continue
+        kind = ",".join(parts[2:])
+        try:
+            if kind_class(kind) is None:
+                continue
+            t = int(parts[0].replace("_", ""))
+        except (Refused, ValueError, AttributeError):
+            continue
+        out.append((t, re.sub(r"\s+", " ", parts[1].strip()), re.sub(r"\s+", " ", kind.strip())))
+    return out
+
+
+def field_name(expr):
+    """`htlc.mpp_part.sender_intended_value` / `&self.foo` / `self.foo.as_ref().map(|x| ..)` / `foo_opt` -> `foo`-like
+    last identifier of the accessed place, without wrappers and the conventional read-side suffixes."""
+    e = expr.strip()
+    e = re.sub(r"^\(?\s*&?\s*", "", e)
+    e = re.sub(r"\.(as_ref|as_mut|clone|cloned|as_slice|iter|borrow|lock|unwrap|read|deref)\(\).*$", "", e)
+    e = re.sub(r"\.map\(.*$", "", e)
+    m = re.match(r"^(?:Some|WithoutLength|Iterable|RequiredWrapper)\s*\(\s*&?\s*(.*?)\s*\)?$", e)
+    if m:
+        e = m.group(1)
+    e = e.lstrip("&* ")
+    ids = re.findall(r"[A-Za-z_]\w*", e.split("(")[0])
+    name = ids[-1] if ids else e
+    if name == "0" and len(ids) > 1:
+        name = ids[-2]
+    for suf in ("_opt", "_ser", "_read", "_option", "_wrapped", "_maybe"):
+        if name.endswith(suf) and len(name) > len(suf):
+            name = name[:-len(suf)]
+    for pre in ("maybe_", "opt_", "_"):
+        if name.startswith(pre) and len(name) > len(pre):
+            name = name[len(pre):]
+    return name
+
+
+def extract_pins(repo):
+    """Pairs every hand-written write-side TLV block with the read-side block of the same file that shares most
+    type numbers (both ways best match, Jaccard >= 0.6) and lists, for each type present on both sides, the
+    expression written and the variable read into."""
+    root = os.path.join(repo, "lightning", "src")
+    pins = []
+    for dp, dn, fn in sorted(os.walk(root)):
+        dn.sort()
+        for f in sorted(fn):
+            if not f.endswith(".rs") or f == "ser_macros.rs":
+                continue
+            rel = os.path.relpath(os.path.join(dp, f), repo)
+            src = strip_comments(open(os.path.join(dp, f)).read())
+            cut = src.find("\n#[cfg(test)]\nmod tests")
+            if cut > 0:
+                src = src[:cut]
+            blocks = {"w": [], "r": []}
+            for side, macs in (("w", WRITE_MACROS), ("r", READ_MACROS)):
+                for mac in macs:
+                    for m in re.finditer(r"(?<![\w_!])%s!\s*\(" % mac, src):
+                        try:
+                            end = balanced(src, m.end() - 1, "(", ")")
+                        except (Refused, AssertionError):
+                            continue
+                        inner = src[m.end():end - 1]
+                        i = inner.find("{")
+                        if i < 0:
+                            continue
+                        try:
+                            j = balanced(inner, i)
+                        except (Refused, AssertionError):
+                            continue
+                        ents = raw_entries(inner[i + 1:j - 1])
+                        if ents:
+                            blocks[side].append((m.start(), ents))
+            def jac(a, b):
+                ta, tb = set(t for t, _, _ in a), set(t for t, _, _ in b)
+                return len(ta & tb) / float(len(ta | tb) or 1)
+            for wi, (wpos, went) in enumerate(blocks["w"]):
+                scores = [(jac(went, rent), -abs(rpos - wpos), ri) for ri, (rpos, rent) in enumerate(blocks["r"])]
+                if not scores:
+                    continue
+                sc, _, ri = max(scores)
+                if sc < 0.6:
+                    continue
+                # best match the other way round too
+                back = max((jac(w2, blocks["r"][ri][1]), -abs(p2 - blocks["r"][ri][0]), k) for k, (p2, w2) in enumerate(blocks["w"]))
+                if back[2] != wi:
+                    continue
+                rd = dict((t, (e, k)) for t, e, k in blocks["r"][ri][1])
+                for t, wexpr, wkind in went:
+                    if t in rd:
+                        rident = rd[t][0]
+                        pins.append({"file": os.path.basename(rel), "type": t, "write": wexpr, "read": rident,
+                                     "wname": field_name(wexpr), "rname": field_name(rident)})
+    return pins
+
+
+def check_pins(pins):
+    """-> (violations, n_name_matches, n_allowlisted). A pin is fine when the written place and the read target have the
+    same (normalised) name, or when the exact (file, type, write expr, read ident) is in the pinned allowlist."""
+    import json
+    try:
+        allow = set(tuple(x) for x in json.load(open(PINS_FILE)))
+    except FileNotFoundError:
+        allow = set()
+    bad, nm, na = [], 0, 0
+    for p in pins:
+        if p["wname"] == p["rname"]:
+            nm += 1
+        elif (p["file"], p["type"], p["write"], p["read"]) in allow:
+            na += 1
+        else:
+            bad.append(p)
+    return bad, nm, na
+
+
+def render(schemas, pairs, pins=None, allow=None):
     L = ["(** GENERATED by tools/codec/persist_schemas.py from lightning/src -- do not edit.",
          "    TLV numbers and kinds of every persistence macro invocation; field codecs are FRest (framing only). *)",
          "Require Import LdkV.Prim.U64 LdkV.Codec.Combinators LdkV.Codec.Tlv.",
@@ -150,12 +278,34 @@ def render(schemas, pairs):
         rows.append('  ("%s", [%s])' % (name.replace('"', ""), "; ".join("mk_entry %d (%s) FRest" % (t, kc[0]) for (t, n, kc) in ents)))
     L.append(";\n".join(rows))
     L.append("].")
+    if pins is not None:
+        L.append("")
+        L.append("(** Field pins of the hand-written TLV blocks: (file, TLV type, place written, variable read into, allowlisted).")
+        L.append("    [wname]/[rname] are the normalised names; a pin holds when they are equal or the exact pair is in the")
+        L.append("    pinned allowlist tools/codec/persist_pins.json. *)")
+        L.append("Definition persist_field_pins : list (string * Z * string * string * bool) := [")
+        rows = []
+        for p in pins:
+            ok = (p["file"], p["type"], p["write"], p["read"]) in (allow or set())
+            rows.append('  ("%s", %d, "%s", "%s", %s)' % (p["file"], p["type"], p["wname"], p["rname"], "true" if ok else "false"))
+        L.append(";\n".join(rows))
+        L.append("].")
+        L.append("Definition pin_ok (p : string * Z * string * string * bool) : bool :=")
+        L.append("  let '(_, _, w, r, allowlisted) := p in String.eqb w r || allowlisted.")
     return "\n".join(L) + "\n"
 
 
 def generate(repo):
     schemas, pairs = extract(repo)
-    return render(schemas, pairs), {"n_schemas": len(schemas), "n_pairs": len(pairs),
+    pins = extract_pins(repo)
+    import json
+    try:
+        allow = set(tuple(x) for x in json.load(open(PINS_FILE)))
+    except FileNotFoundError:
+        allow = set()
+    bad, nm, na = check_pins(pins)
+    return render(schemas, pairs, pins, allow), {"n_pins": len(pins), "n_pin_name_matches": nm, "n_pin_allowlisted": na,
+                                    "pin_violations": [{k: p[k] for k in ("file", "type", "write", "read")} for p in bad],"n_schemas": len(schemas), "n_pairs": len(pairs),
                                     "n_entries": sum(len(e) for _, e in schemas),
                                     "names": [n for n, _ in schemas]}
 
@@ -163,6 +313,10 @@ def generate(repo):
 if __name__ == "__main__":
     import sys
     sys.path.insert(0, os.path.dirname(os.path.dirname(os.path.abspath(__file__))))
+    if "--pin" in sys.argv:
+        import json
+        pins = extract_pins(sys.argv[1])
+        json.dump(sorted([p["file"], p["type"], p["write"], p["read"]] for p in pins if p["wname"] != p["rname"]), open(PINS_FILE, "w"), indent=0)
     t, meta = generate(sys.argv[1] if len(sys.argv) > 1 else "/repo")
     print(t[:3000])
     print(meta["n_schemas"], meta["n_pairs"], meta["n_entries"])
